@@ -1241,22 +1241,41 @@ class ExpandChecker:
         return out
 
 
-def check_expand(repo, modules, expanders: Dict[str, str], must_be_free: List[str]) -> Dict[str, Any]:
-    ck = ExpandChecker(repo, modules, expanders)
+def check_expand(repo, modules, expanders: Dict[str, str], must_be_free: List[str], baseline_free=()) -> Dict[str, Any]:
+    """`baseline_free`: functions whose EXPAND-freedom is part of the baseline (ledger).  A *private* function that is neither
+    declared an expander, nor listed in `must_be_free`, nor in the baseline - i.e. a helper introduced by a refactoring - may be
+    an **inferred expander**: its own obligation is named `expand-inferred` and holds, its short name joins the expander names,
+    and every caller is judged with that (callee effect from the inferred summary): a declared-free caller then fails."""
+    expanders = dict(expanders)
     for q in list(expanders) + list(must_be_free):
-        if q not in ck.functions:
+        if q not in ExpandChecker(repo, modules, expanders).functions:
             raise KeyError("EXPAND contract for unknown function %s" % q)
-    res = ck.run()
+    inferred: Dict[str, str] = {}
+    protected = set(must_be_free) | set(baseline_free)
+    for _ in range(6):
+        ck = ExpandChecker(repo, modules, dict(expanders, **inferred))
+        res = ck.run()
+        new = {}
+        for q, sites in res.items():
+            name = q.split(".")[-1]
+            private = name.startswith("_") and not (name.startswith("__") and name.endswith("__"))
+            if sites and q not in expanders and q not in inferred and q not in protected and private:
+                new[q] = "inferred from its body: " + "; ".join(sites)[:300]
+        if not new:
+            break
+        inferred.update(new)
     obligations, per_fn = [], {}
     for q, sites in res.items():
         sq = q.replace("pydsdl.", "")
         declared = q in expanders
         if sites:
-            per_fn[sq] = {"declared_expander": declared, "sites": sites}
-        ok = declared or not sites
-        obligations.append({"name": "%s/effect#expand-%s" % (sq, "declared" if declared else "free"), "ok": ok,
+            per_fn[sq] = {"declared_expander": declared, "inferred_expander": q in inferred, "sites": sites}
+        ok = declared or q in inferred or not sites
+        kind = "declared" if declared else ("inferred" if q in inferred else "free")
+        obligations.append({"name": "%s/effect#expand-%s" % (sq, kind), "ok": ok,
                             "detail": "" if ok else "EXPAND sites in a function declared EXPAND-free: " + "; ".join(sites),
                             "function": q})
     return {"check": "effects-expand", "obligations": obligations, "violations": [], "functions_analysed": len(res),
-            "expand_sites": per_fn, "types": {"attributes": {k: sorted(v) for k, v in ck.attr_type.items() if v},
-                                              "results": {k: sorted(v) for k, v in ck.ret_type.items() if v}}}
+            "expand_sites": per_fn, "inferred_not_declared": {q.replace("pydsdl.", ""): w for q, w in sorted(inferred.items())},
+            "types": {"attributes": {k: sorted(v) for k, v in ck.attr_type.items() if v},
+                      "results": {k: sorted(v) for k, v in ck.ret_type.items() if v}}}
